@@ -4,6 +4,10 @@ set -eu
 . "$(dirname "$0")/env.sh"
 B="$VERIF_DIR/.build/pint"
 mkdir -p "$B"
+# several checks share this binary: one build at a time; go build leaves an up-to-date binary untouched, so a
+# check that is executing it is not disturbed by another check's build
+exec 8>"$VERIF_DIR/.build/pint.lock"
+flock 8
 cp "$VERIF_REPO/go.mod" "$B/go.mod"; cp "$VERIF_REPO/go.sum" "$B/go.sum"
 out="$B/pint"
 flags=()
